@@ -89,6 +89,23 @@ def bounded(ctx, b):
                     return ok, {"format": fmt, "order": (i, j, i),
                                 "differs": [n for n, (x, y) in enumerate(((x1, fresh[i]), (x2, fresh[j]), (x3, fresh[i]))) if x != y]}
                 b.guard(("reuse", fmt, i, j), one, sample={"format": fmt, "documents": (i, j, i)})
+        # reuse right after a read that RAISED half-way (a damaged document): the next result is the fresh one
+        damaged = {"scc": lambda d: d.rstrip("\n") + "\n\n00:00:0x;00\t9420 9420\n", "srt": lambda d: d + "\n9\n00:00:xx,000 --> 00:00:01,000\nbad\n",
+                   "webvtt": lambda d: d + "\n\n00:99:99.000 --> 00:00:01.000\nbad\n", "microdvd": lambda d: d + "{1}{x}bad\n",
+                   "dfxp": lambda d: d.replace("</div>", '<p end="3s">no begin</p></div>', 1),
+                   "sami": lambda d: d.replace("</BODY>", '<SYNC><P class="ENCC">no start</P></SYNC></BODY>').replace("</body>", '<SYNC><P class="ENCC">no start</P></SYNC></body>')}
+        for i, a in enumerate(ds):
+            def failed_then(i=i, a=a):
+                r = R(ignore_timing_errors=False) if fmt == "webvtt" else R()
+                ref = samples.dump((R(ignore_timing_errors=False) if fmt == "webvtt" else R()).read(a))
+                raised = False
+                try:
+                    r.read(damaged[fmt](a))
+                except Exception:
+                    raised = True
+                got = samples.dump(r.read(a))
+                return got == ref, {"format": fmt, "document": i, "the_damaged_read_raised": raised}
+            b.guard(("after_failed_read", fmt, i), failed_then, sample={"format": fmt, "document": i, "after_a_read_that_raised": True})
         # isolation: editing one result changes neither another result nor a later read
         for i, a in enumerate(ds):
             def two(i=i, a=a):
